@@ -28,8 +28,7 @@ Fixpoint region_lookup (i : nat) (l : list (nat * nat)) : nat :=
   | (j, r) :: rest => if Nat.eqb i j then r else region_lookup i rest
   end.
 
-(* bit 64 (a child list the model does not expect there) only counts when no named region explains it *)
-Definition clean (r : nat) : nat := if Nat.eqb (Nat.land r 15) 0 then r else Nat.land r 63.
+Definition clean (r : nat) : nat := r.
 
 (* ids on which FORD's outcome differs from the Spec *)
 Definition spec_bad (c : cfg) (t : node) (impl : list out) (pg : list nat) : list nat :=
